@@ -196,6 +196,27 @@ def run(case, rec):
         return
     try:
         surf = surface(api, case['docs'])
+        # string attribute values as the compiler accepted them (the API description): how the lexer reads
+        # a string literal is judged once, by C02
+        for nsname, s_ in surf.items():
+            irns = pkg.api.namespaces.get(nsname)
+            for r_ in s_.get('routes', []):
+                try:
+                    irr = irns.routes_by_name[r_['name']].at_version[r_['version']]
+                except Exception:
+                    continue
+                for k_, v_ in list(r_['attrs'].items()):
+                    if isinstance(v_, str) and isinstance(irr.attrs.get(k_), str):
+                        r_['attrs'][k_] = irr.attrs[k_]
+            for st_ in s_.get('structs', []):
+                try:
+                    irf = {f_.name: f_ for f_ in irns.data_type_by_name[st_['name']].all_fields}
+                except Exception:
+                    continue
+                for k_, dv_ in list(st_.get('defaults', {}).items()):
+                    if isinstance(dv_, list) and len(dv_) == 2 and isinstance(dv_[1], str) and dv_[0] != 'tag' and \
+                            k_ in irf and irf[k_].has_default and isinstance(irf[k_].default, str):
+                        st_['defaults'][k_] = [dv_[0], irf[k_].default]
         order_all = [n['name'] for n in api['namespaces']]
         for i, first in enumerate(order_all):
             order = [first] + [x for x in order_all if x != first]
